@@ -407,8 +407,13 @@ func (w *World) initSignature() {
 		"(declare-fun ifaceval (Int) Int)",
 		"(declare-fun box (Int Int) Int)",
 		"(declare-fun closurefn (Int) Int)",
+		"(declare-fun imul (Int Int) Int)",
 	)
 	w.axioms = append(w.axioms,
+		// the product of two symbolic terms: sign and monotonicity facts only
+		"(assert (forall ((a Int) (b Int)) (! (=> (and (>= a 0) (>= b 0)) (>= (imul a b) 0)) :pattern ((imul a b)))))",
+		"(assert (forall ((a Int) (b Int)) (! (=> (and (>= a 1) (>= b 1)) (and (>= (imul a b) a) (>= (imul a b) b))) :pattern ((imul a b)))))",
+		"(assert (forall ((a Int) (b Int)) (! (=> (or (= a 0) (= b 0)) (= (imul a b) 0)) :pattern ((imul a b)))))",
 		"(assert (forall ((s Str)) (! (>= (gstr.len s) 0) :pattern ((gstr.len s)))))",
 		"(assert (forall ((a (Array Int Int)) (o Int) (l Int)) (! (=> (>= l 0) (= (gstr.len (gstr.of a o l)) l)) :pattern ((gstr.of a o l)))))",
 		"(assert (forall ((a Int) (i Int)) (! (and (= (elt$arr (elt a i)) a) (= (elt$idx (elt a i)) i) (= (root (elt a i)) (root a)) (= (subtag (elt a i)) 1) (< (elt a i) 0)) :pattern ((elt a i)))))",
@@ -480,11 +485,15 @@ func (w *World) Preamble() string {
 	}
 	// string literals: distinct, known lengths
 	var lits []string
+	litLen := map[string]int{}
 	for s, n := range w.strLits {
-		b.WriteString(fmt.Sprintf("(declare-const %s Str)\n(assert (= (gstr.len %s) %d))\n", n, n, len(s)))
 		lits = append(lits, n)
+		litLen[n] = len(s)
 	}
-	sort.Strings(lits)
+	sort.Strings(lits) // map order must not leak into the query text (solver behaviour depends on it)
+	for _, n := range lits {
+		b.WriteString(fmt.Sprintf("(declare-const %s Str)\n(assert (= (gstr.len %s) %d))\n", n, n, litLen[n]))
+	}
 	if len(lits) > 1 {
 		b.WriteString("(assert (distinct " + strings.Join(lits, " ") + "))\n")
 	}
